@@ -421,9 +421,11 @@ def _lazy_constant(f: Func, assign: ast.AST, target: ast.Attribute) -> bool:
     return not (names_in(assign.value) & params)
 
 
-def _lossy_constructs(kf: Func) -> List[str]:
+def _lossy_constructs(kf) -> List[str]:
+    """``kf``: the key function (Func) or a key expression (an expanded key helper)"""
     out = []
-    for n in own_nodes(kf.node):
+    nodes = own_nodes(kf.node) if isinstance(kf, Func) else ast.walk(kf)
+    for n in nodes:
         if isinstance(n, (ast.ListComp, ast.GeneratorExp, ast.SetComp, ast.DictComp)) and any(g.ifs for g in n.generators):
             out.append("filtering comprehension %s" % unparse(n)[:60])
         if isinstance(n, ast.Delete):
@@ -447,10 +449,42 @@ def rule_b6(ctx, scope: Set[str]) -> None:
         if f is None or not q.startswith("synrbl."):
             continue
         key_calls: Dict[str, List[ast.Call]] = {}
+        key_exprs: Dict[str, ast.AST] = {}
+        import re as _re
+
+        cands = []
         for c in calls(f):
             tgt = ctx.res.resolve_callee(c, f)
-            if not (tgt and tgt[0] == "func" and tgt[1] in prog.functions):
+            if tgt and tgt[0] == "func" and tgt[1] in prog.functions:
+                cands.append((c, tgt[1]))
+        # key helpers that were expanded in place (synlint/inline.py): the key is an expression of its own;
+        # locals bound once to such an expression stand for it
+        def key_expr_of(e):
+            if isinstance(e, ast.Name):
+                a = assignments_to(f, e.id)
+                if len(a) == 1 and a[0][2] is None:
+                    e = a[0][1]
+            if isinstance(e, ast.Call) and getattr(e.func, "id", "") in ("tuple", "frozenset", "str") and e.args and any(isinstance(x, (ast.GeneratorExp, ast.ListComp, ast.Call)) for x in ast.walk(e.args[0])):
+                return e
+            return None
+
+        for n in own_nodes(f.node):
+            k = None
+            if isinstance(n, ast.Subscript) and not isinstance(n.slice, ast.Slice):
+                k = n.slice
+            elif isinstance(n, ast.Call) and isinstance(n.func, ast.Attribute) and n.func.attr in ("setdefault", "get") and n.args:
+                k = n.args[0]
+            elif isinstance(n, ast.Compare) and len(n.ops) == 1 and isinstance(n.ops[0], (ast.In, ast.NotIn)):
+                k = n.left
+            if k is None or isinstance(k, ast.Call) and (ctx.res.resolve_callee(k, f) or ("", ""))[0] == "func":
                 continue
+            ke = key_expr_of(k)
+            if ke is not None:
+                sig = "expr:" + _re.sub(r"__i\d+", "", unparse(ke))
+                key_exprs[sig] = ke
+                cands.append((k, sig))
+        for c, tq in cands:
+            tgt = ("func", tq)
             par = getattr(c, "_parent", None)
             role = None
             if isinstance(par, ast.Subscript) and par.slice is c:
@@ -465,15 +499,20 @@ def rule_b6(ctx, scope: Set[str]) -> None:
             roles = {r for r, _ in uses}
             if roles != {"store", "load"}:
                 continue
-            kf = prog.functions[kq]
+            if kq.startswith("expr:"):
+                kf = key_exprs[kq]
+                kname = kq[5:45]
+            else:
+                kf = prog.functions[kq]
+                kname = kf.name
             lossy = _lossy_constructs(kf)
-            ctx.instance("C06-B6", "%s shares results through a table keyed by %s (lossy constructs: %s)" % (q.split("synrbl.", 1)[-1], kf.name, lossy or "none"), f.loc(uses[0][1]), ok=not lossy)
+            ctx.instance("C06-B6", "%s shares results through a table keyed by %s (lossy constructs: %s)" % (q.split("synrbl.", 1)[-1], kname, lossy or "none"), f.loc(uses[0][1]), ok=not lossy)
             if lossy:
                 ctx.finding(
                     "C06-B6",
-                    "%s:shared-by-key:%s" % (q.split("synrbl.", 1)[-1], kf.name),
+                    "%s:shared-by-key:%s" % (q.split("synrbl.", 1)[-1], kname if not kq.startswith("expr:") else "expanded-key"),
                     f.loc(uses[0][1]),
-                    "rows are grouped by %s(), which drops information (%s), and the result computed for one row of a group is reused for the others: a row's result depends on which rows share its batch" % (kf.name, "; ".join(lossy[:2])),
+                    "rows are grouped by %s, which drops information (%s), and the result computed for one row of a group is reused for the others: a row's result depends on which rows share its batch" % (kname, "; ".join(lossy[:2])),
                 )
     # detector fixture (expected count on the tree is zero)
     import textwrap
